@@ -4,6 +4,7 @@ Function-level theorems about `Model/Station.lean`, for every input and every ap
 -/
 import ProfiVerif.Model.Station
 import ProfiVerif.Lemmas.StationTrace
+import ProfiVerif.Lemmas.AppOrder
 
 namespace PV.C15
 open PV
@@ -496,5 +497,143 @@ example : ∃ w log, World.runLog { s := Station.new demoParams, apps := [[.decl
     [.setOnline, .poll 100 false [0xDC, 7, 3], .poll 100000 false [], .setOffline] = some (w, log) ∧ Matched 7 log :=
   reply_or_timeout_once _ _ (by decide) (by decide)
     (by intro s hs a ha h pdu he; simp at hs; subst hs; simp at ha; subst ha; cases he) _
+
+
+/-! ## Scheduling order over whole token visits (`ask_order`)
+
+Helper lemmas: `Lemmas/AppOrder.lean` (`walk`, `nextIdx`, `poll_walk`).  The TRUE rule of
+`apps_transmit_telegram` / `schedule_next_application` (src/fdl/active.rs) is:
+
+* after application `i` DECLINED, the next callback of the token visit is `transmit_telegram` of
+  `(i+1) % n`;
+* after application `i` SENT a telegram, `next_application` STAYS at `i`: the next callback is its
+  reply / time-out (if the telegram expected a reply), and the next `transmit_telegram` goes to `i`
+  AGAIN (not to `(i+1) % n`) — an application keeps the turn until it declines;
+* `set_offline` resets the turn to application 0 (`*self = Self::new(..)`), so the rule is stated per
+  token visit (and per poll at every step of every history). -/
+
+/-- A call sequence that stays within one token hold: at the start of every call the station is in
+`UseToken` or `AwaitDataResponse`, and nobody calls `set_offline`. -/
+def VisitRun : World → List ApiCall → Prop
+  | _, [] => True
+  | w, a :: rest => Holding w.s ∧ a ≠ .setOffline ∧ ∀ w1 l, w.stepLog a = some (w1, l) → VisitRun w1 rest
+
+/-- `ask_order`, one API call: from a state holding the token, the callbacks of the call follow the
+turn from `next_application` before to `next_application` after. -/
+theorem ask_order_step (w w' : World) (a : ApiCall) (l : List AppCall) (hh : Holding w.s) (ha : a ≠ .setOffline)
+    (hs : w.stepLog a = some (w', l)) :
+    walk w.apps.length w.s.nextApp l = some w'.s.nextApp ∧ w'.apps.length = w.apps.length := by
+  cases a with
+  | setOnline => cases hs; exact ⟨rfl, rfl⟩
+  | setOffline => exact absurd rfl ha
+  | poll now phy arrived =>
+    simp only [World.stepLog] at hs
+    split at hs
+    · rename_i c hc
+      cases hs
+      exact poll_walk _ _ _ _ _ _ hh hc
+    · cases hs
+
+/-- **`ask_order`** (whole token visit, any start state holding the token, any polls / bytes / times /
+scripts): the complete callback log of the visit follows the turn. -/
+theorem ask_order_walk : ∀ (calls : List ApiCall) (w w' : World) (log : List AppCall), VisitRun w calls →
+    w.runLog calls = some (w', log) →
+    walk w.apps.length w.s.nextApp log = some w'.s.nextApp ∧ w'.apps.length = w.apps.length := by
+  intro calls
+  induction calls with
+  | nil => intro w w' log _ h; cases h; exact ⟨rfl, rfl⟩
+  | cons a rest ih =>
+    intro w w' log hv h
+    obtain ⟨hh, ha, hrest⟩ := hv
+    simp only [World.runLog] at h
+    split at h
+    · rename_i w1 l1 hs1
+      split at h
+      · rename_i w2 l2 hr2
+        cases h
+        obtain ⟨hw1, hl1⟩ := ask_order_step w w1 a l1 hh ha hs1
+        obtain ⟨hw2, hl2⟩ := ih w1 w' l2 (hrest w1 l1 hs1) hr2
+        rw [hl1] at hw2
+        exact ⟨by rw [walk_append _ _ _ _ _ hw1]; exact hw2, hl2.trans hl1⟩
+      · cases h
+    · cases h
+
+/-- Reading of `walk`: any two ADJACENT callbacks `r1, r2` of a log that follows the turn satisfy
+`r2.app = nextIdx n r1`, and the first callback goes to the application whose turn it is. -/
+theorem walk_adjacent (n : Nat) : ∀ (log : List AppCall) (j k : Nat), walk n j log = some k →
+    (∀ r post, log = r :: post → r.app = j) ∧
+    (∀ pre r1 r2 post, log = pre ++ r1 :: r2 :: post → r2.app = nextIdx n r1) := by
+  intro log
+  induction log with
+  | nil =>
+    intro j k _
+    exact ⟨(by intro r post h; cases h), (by intro pre r1 r2 post h; simp at h)⟩
+  | cons x rest ih =>
+    intro j k h
+    simp only [walk] at h
+    by_cases hx : x.app = j
+    · rw [if_pos hx] at h
+      obtain ⟨ih1, ih2⟩ := ih _ k h
+      refine ⟨(by intro r post he; cases he; exact hx), ?_⟩
+      intro pre r1 r2 post he
+      cases pre with
+      | nil =>
+        simp only [List.nil_append, List.cons.injEq] at he
+        obtain ⟨e1, e2⟩ := he
+        subst e1
+        exact ih1 r2 post e2
+      | cons y ys =>
+        simp only [List.cons_append, List.cons.injEq] at he
+        exact ih2 ys r1 r2 post he.2
+    · rw [if_neg hx] at h; cases h
+
+/-- **`ask_order`** in callback-log form.  Within one token visit (`VisitRun`), for every two adjacent
+callbacks of the visit's complete log:
+(a) after `transmit_telegram` of application `i` that DECLINED, the next callback is for `(i+1) % n`;
+(b) after `transmit_telegram` of application `i` that SENT, the next callback (its reply, its time-out,
+    or the next ask) is for `i` itself;
+(c) after a reply / time-out delivered to `i`, the next callback is for `i` (it is asked again);
+and the first callback of the visit goes to `next_application`. -/
+theorem ask_order (calls : List ApiCall) (w w' : World) (log : List AppCall) (hv : VisitRun w calls)
+    (hr : w.runLog calls = some (w', log)) :
+    (∀ r post, log = r :: post → r.app = w.s.nextApp) ∧
+    (∀ pre i hp r post, log = pre ++ .transmit i hp .decline :: r :: post → r.app = (i + 1) % w.apps.length) ∧
+    (∀ pre i hp hd pdu r post, log = pre ++ .transmit i hp (.send hd pdu) :: r :: post → r.app = i) ∧
+    (∀ pre i x t r post, log = pre ++ .reply i x t :: r :: post → r.app = i) ∧
+    (∀ pre i x r post, log = pre ++ .timeout i x :: r :: post → r.app = i) := by
+  obtain ⟨h1, h2⟩ := walk_adjacent _ log _ _ (ask_order_walk calls w w' log hv hr).1
+  exact ⟨h1, fun pre i hp r post he => h2 pre _ r post he, fun pre i hp hd pdu r post he => h2 pre _ r post he,
+    fun pre i x t r post he => h2 pre _ r post he, fun pre i x r post he => h2 pre _ r post he⟩
+
+/-- `ask_order` at every step of every history from a fresh station (lifted with the C05 invariant as in
+`callbacks_trace`): whatever call sequence `pre` was made before, the next call does not panic; if the
+station holds the token its callbacks follow the turn, and otherwise (the call not being a poll in
+`UseToken` / `AwaitDataResponse`) it makes no callback at all. -/
+theorem ask_order_trace (p : Params) (apps : Apps) (h1 : p.address < p.hsa) (h2 : p.hsa ≤ 126)
+    (hs : ScriptsOk apps) (pre : List ApiCall) (a : ApiCall) :
+    ∃ w w' l, World.run { s := Station.new p, apps := apps, rx := [] } pre = some w ∧ w.stepLog a = some (w', l) ∧
+      (Holding w.s → a ≠ .setOffline → walk w.apps.length w.s.nextApp l = some w'.s.nextApp) ∧
+      (¬ Holding w.s → l = []) := by
+  obtain ⟨w, w', l, hw, -, hl⟩ := reach_step p apps h1 h2 hs pre a
+  refine ⟨w, w', l, hw, hl, fun hh ha => (ask_order_step w w' a l hh ha hl).1, ?_⟩
+  intro hn
+  cases a with
+  | setOnline => cases hl; rfl
+  | setOffline => cases hl; rfl
+  | poll now phy arrived =>
+    simp only [World.stepLog] at hl
+    split at hl
+    · rename_i c hc; cases hl
+      rcases poll_calls _ _ _ _ _ _ hc with ⟨h0, -⟩ | ⟨-, hu, -, -⟩ | ⟨-, x, d, hst, -⟩
+      · exact h0
+      · exact absurd (.inl hu) hn
+      · exact absurd (.inr ⟨x, d, hst⟩) hn
+    · cases hl
+
+/-- The over-strong reading "after a SENT telegram the next ask goes to `(i+1) % n`" is FALSE of the
+model and of the source: `nextIdx` of a sent telegram is the sender itself.  Concrete witness: the poll of
+`ask_after_timeout_same_poll` (one application would not show it, so see `order_eval` below for three). -/
+theorem sender_keeps_turn (n i : Nat) (hp : Bool) (hd : Header) (pdu : Bytes) :
+    nextIdx n (.transmit i hp (.send hd pdu)) = i := rfl
 
 end PV.C15
